@@ -20,6 +20,7 @@ EXPLANATION = (
     "return, and the lambda is (f.args, return value); (R5) every inlined helper is a freshly parsed AST, never a cached shared object."
     " (R6) loop variables of comprehensions in a helper body are binders (first iterable outside the frame, every iterable visited once); (R7) the helper a name denotes comes from the callable's own closure snapshot (shared with C04); (R8) the helper's source is recovered under the gates of C03, whose rule set is re-evaluated here."
     " (R10) the body of an inlined helper has been through a capture rewriter built from the helper's own closure and module; helpers already being inlined are left by name."
+    " (R4, as of D46) a decorated helper is not inlined (it stays a call by name); annotations are not carried onto the lambda."
 )
 NOT_DECIDED = "value equality with Python's own call of the helper; capture of free names of an argument by binders inside the helper (R2e, known finding)."
 
